@@ -11,3 +11,95 @@ package db
 //@   trusted
 //@   ensures result == patch.digest
 //@   modifies nothing
+
+// ======================================================================================================================
+// Property C07 (versioned store). Byte strings are abstract values (bytesval) with length blen, tail btail and
+// concatenation bcat. Storage I/O is assumed never to fail: the only errors are nil and leveldb.ErrNotFound.
+//
+// raw layer (interface `db`): a partial map from keys to RAW values. Raw encoding of the logical store on top of it:
+//   empty raw value  = tombstone (logically absent);   0x00 || v  = present with value v.
+//@ model db kvHas map[int]bool
+//@ model db kvVal map[int]int
+
+//@ func db.Get(self, key) -> (data, err)
+//@   ensures err == nil || err == leveldb.ErrNotFound
+//@   ensures err == nil <==> self.kvHas[bytesval(key)]
+//@   ensures err == nil ==> bytesval(data) == self.kvVal[bytesval(key)]
+//@   modifies nothing
+//@ func db.Has(self, key) -> (ok, err)
+//@   ensures err == nil && ok == self.kvHas[bytesval(key)]
+//@   modifies nothing
+//@ func db.Put(self, key, value)
+//@   ensures result == nil && self.kvHas == store(old(self.kvHas), bytesval(key), true) && self.kvVal == store(old(self.kvVal), bytesval(key), bytesval(value))
+//@   modifies self.kvHas, self.kvVal
+
+// logical layer (interface DB): a partial map from keys to values
+//@ model DB has map[int]bool
+//@ model DB val map[int]int
+//@ func DB.Get(self, key) -> (data, err)
+//@   ensures err == nil || err == leveldb.ErrNotFound
+//@   ensures err == nil <==> self.has[bytesval(key)]
+//@   ensures err == nil ==> bytesval(data) == self.val[bytesval(key)]
+//@   modifies nothing
+//@ func DB.Has(self, key) -> (ok, err)
+//@   ensures err == nil && ok == self.has[bytesval(key)]
+//@   modifies nothing
+//@ func DB.Put(self, key, value)
+//@   ensures result == nil && self.has == store(old(self.has), bytesval(key), true) && self.val == store(old(self.val), bytesval(key), bytesval(value))
+//@   modifies self.has, self.val
+//@ func DB.Delete(self, key)
+//@   ensures result == nil && self.has == store(old(self.has), bytesval(key), false)
+//@   modifies self.has, self.val
+
+// ---- enableDeleteDB: the logical view of a raw store -------------------------------------------------------------------------
+//@ spec edHas(d *enableDeleteDB, k int) bool = d.db.kvHas[k] && blen(d.db.kvVal[k]) != 0
+//@ spec edVal(d *enableDeleteDB, k int) int = btail(d.db.kvVal[k])
+
+//@ func enableDeleteDB.Has(d, key) -> (ok, err)
+//@   requires d != nil
+//@   ensures[decodes-tombstone] err == nil && ok == edHas(d, bytesval(key))
+//@   modifies nothing
+//@ func enableDeleteDB.Get(d, key) -> (data, err)
+//@   requires d != nil
+//@   ensures[absent-iff-tombstone-or-missing] err == nil <==> edHas(d, bytesval(key))
+//@   ensures[not-found] err == nil || err == leveldb.ErrNotFound
+//@   ensures[value] err == nil ==> bytesval(data) == edVal(d, bytesval(key))
+//@   modifies nothing
+//@ func enableDeleteDB.Put(d, key, value)
+//@   requires d != nil
+//@   ensures[present-afterwards] result == nil && edHas(d, bytesval(key)) && edVal(d, bytesval(key)) == bytesval(value)
+//@   ensures[others-untouched] forall k int :: k != bytesval(key) ==> d.db.kvHas[k] == old(d.db.kvHas[k]) && d.db.kvVal[k] == old(d.db.kvVal[k])
+//@   modifies d.db.kvHas, d.db.kvVal
+//@ func enableDeleteDB.Delete(d, key)
+//@   requires d != nil
+//@   ensures[absent-afterwards] result == nil && !edHas(d, bytesval(key))
+//@   ensures[others-untouched] forall k int :: k != bytesval(key) ==> d.db.kvHas[k] == old(d.db.kvHas[k]) && d.db.kvVal[k] == old(d.db.kvVal[k])
+//@   modifies d.db.kvHas, d.db.kvVal
+
+// ---- the undo overlay of a historical view: logical undo operations written onto a RAW store, first writer wins ---------------
+// Put(key, v): "at the older version key had value v"  -> raw 0x00||v ;  Delete(key): "absent at the older version" -> raw
+// tombstone, i.e. the EMPTY raw value (anything else reads back through enableDeleteDB as present).
+//@ func patchApplierWO.Put(pa, key, value)
+//@   requires pa != nil
+//@   ensures[records-older-value] old(pa.err == nil && !pa.db.kvHas[bytesval(key)]) ==> pa.db.kvHas[bytesval(key)] && blen(pa.db.kvVal[bytesval(key)]) != 0 && btail(pa.db.kvVal[bytesval(key)]) == bytesval(value)
+//@   ensures[first-writer-wins] old(pa.err != nil || pa.db.kvHas[bytesval(key)]) ==> pa.db.kvHas == old(pa.db.kvHas) && pa.db.kvVal == old(pa.db.kvVal)
+//@   ensures[others-untouched] forall k int :: k != bytesval(key) ==> pa.db.kvHas[k] == old(pa.db.kvHas[k]) && pa.db.kvVal[k] == old(pa.db.kvVal[k])
+//@ func patchApplierWO.Delete(pa, key)
+//@   requires pa != nil
+//@   ensures[records-absence-as-tombstone] old(pa.err == nil && !pa.db.kvHas[bytesval(key)]) ==> pa.db.kvHas[bytesval(key)] && blen(pa.db.kvVal[bytesval(key)]) == 0
+//@   ensures[first-writer-wins] old(pa.err != nil || pa.db.kvHas[bytesval(key)]) ==> pa.db.kvHas == old(pa.db.kvHas) && pa.db.kvVal == old(pa.db.kvVal)
+//@   ensures[others-untouched] forall k int :: k != bytesval(key) ==> pa.db.kvHas[k] == old(pa.db.kvHas[k]) && pa.db.kvVal[k] == old(pa.db.kvVal[k])
+
+// ---- computing the undo patch: for every key the patch touches, record the value the store has NOW -----------------------------
+//@ model Patch opCount int   // ghost: number of operations recorded so far
+//@ func Patch.Put(self, key, value)
+//@   ensures self.opCount == old(self.opCount) + 1
+//@   modifies self.opCount
+//@ func Patch.Delete(self, key)
+//@   ensures self.opCount == old(self.opCount) + 1
+//@   modifies self.opCount
+//@ func patchRollback.rollback(pr, key)
+//@   requires pr != nil
+//@   at-call Put assert[restores-current-value] pr.db.has[bytesval(key)] && bytesval(arg2) == pr.db.val[bytesval(key)] && bytesval(arg1) == bytesval(key)
+//@   at-call Delete assert[restores-absence] !pr.db.has[bytesval(key)] && bytesval(arg1) == bytesval(key)
+//@   ensures[exactly-one-op] pr.rb.opCount == old(pr.rb.opCount) + 1
